@@ -327,6 +327,7 @@ func checkC07(p *Prog, r *Report) {
 	c07BindingArity(p, r)
 	c07Categories(p, r, prefixed)
 	c07Aggregation(p, r)
+	c07Constructors(p, r)
 	// the declarations that did translate are kept next to the errors (decided by the C17 analysis R17f)
 	s17 := NewReport("C17", p)
 	checkPartialOutput(p, s17)
